@@ -1,4 +1,7 @@
-KERNELS = {'C17_pool': dict(src='kernels/C17_pool.cpp', flags=['-DNDEBUG'])}
+KERNELS = {'C17_pool': dict(src='kernels/C17_pool.cpp', flags=['-DNDEBUG']),
+           'C17_conv': dict(src='kernels/C17_conv.cpp', flags=['-DNDEBUG', '-DNO_ELEMENTS']),
+           'C17_shapes': dict(src='kernels/C17_shapes.cpp', flags=['-DNDEBUG']),
+           'C17_conv_el': dict(src='kernels/C17_conv.cpp', flags=['-DNDEBUG', '-DELEMENTS_ONLY'])}
 
 
 def _p(h, w, kh, kw, sh, sw, ceil, n=1, c=1, **kw_):
@@ -20,8 +23,75 @@ HARNESSES = [
       bounds='index::shape_pool2d + slice_pool2d, array<size_t,4> shape: N,C 1..2, H,W 1..MAXN, kernel 1..3 (<= input), stride 1..3, ceil_mode, output index: all symbolic',
       quick=[{'MAXN': 7}], thorough=[{'MAXN': 12}]),
  dict(name='max_pool2d', src='harnesses/C17.c', func='h_max_pool2d', kernels=['C17_pool'], unwind=6, bounds='view::max_pool2d; ' + PB, quick=QUICK, thorough=ALL + [_p(2, 2, 2, 1, 1, 1, 1, n=2, c=2), _p(3, 3, 2, 2, 2, 2, 1, n=1, c=2)]),
- dict(name='avg_pool2d', src='harnesses/C17.c', func='h_avg_pool2d', kernels=['C17_pool'], unwind=6, bounds='view::avg_pool2d (float32 result); ' + PB, quick=QUICK[:6], thorough=ALL),
+ dict(name='avg_pool2d', src='harnesses/C17.c', func='h_avg_pool2d', kernels=['C17_pool'], unwind=6, backend='cadical', timeout=600,
+      bounds='view::avg_pool2d (float32 result); ' + PB, quick=[QUICK[3], QUICK[2], QUICK[0]], thorough=ALL),
 ]
-OUTSIDE = []
-ASSUMPTIONS = []
-CLAIM = dict(text='', note='')
+
+
+def _ci(name, bounds, **kw):
+    q = kw.pop('q', 6); t = kw.pop('t', 7); cfg = kw.pop('cfg', {})
+    return dict(name=name, src='harnesses/C17_conv.c', func=kw.pop('func', 'h_' + name), kernels=['C17_conv'], unwind=kw.pop('unwind', 14), bounds=bounds,
+                quick=[dict({'MAXL': q}, **cfg)] if q else [], thorough=[dict({'MAXL': t}, **cfg)], **kw)
+
+
+HARNESSES += [
+ _ci('conv1d_shape_nopad', 'as conv1d_shape with padding = None', func='h_conv1d_shape', cfg={'NOPAD': 1, 'KF_C17_CONV_BATCH': 1}, unwind=8),
+ _ci('conv2d_shape_nopad', 'as conv2d_shape with padding = None', func='h_conv2d_shape', cfg={'NOPAD': 1, 'KF_C17_CONV_BATCH': 1, 'KF_C17_CONV2D_DILATION_ORDER': 1}, unwind=12, q=4, t=5),
+ _ci('conv1d_shape', 'shape of view::conv1d through the real convnd pipeline (no element read): hybrid input (N 1..2, C 1..2, L 1..MAXL), weight (C_out 1..2, C, K 1..3), stride 1..3, padding 0..2, dilation 1..2, all symbolic (positive output size)',
+     cfg={'KF_C17_CONV_BATCH': 1}, mem_gb=10, q=None, t=4),
+ _ci('conv2d_shape', 'shape of view::conv2d (no element read): input (1..2, 1..2, 1..MAXL, 1..MAXL) with <= 64 cells, weight (1..2, C, 1..3, 1..3), stride/padding/dilation pairs 1..3 / 0..2 / 1..2, all symbolic', q=None, t=3, cfg={'KF_C17_CONV_BATCH': 1, 'KF_C17_CONV2D_DILATION_ORDER': 1}, mem_gb=10),
+ _ci('sliding_window', 'index::shape_sliding_window + sliding_window over the last two axes of a 4-d shape (the convnd configuration), extents 1..MAXL, window 1..3, window index symbolic'),
+ _ci('expand', 'index::shape_expand + expand (dilation) on the last two axes, extents 1..MAXL, spacing 0..2, index symbolic'),
+ _ci('pad_index', 'index::shape_pad + pad on a 4-d shape, extents 1..MAXL, widths 0..2, index symbolic', unwind=11),
+ dict(name='conv1d_el', src='harnesses/C17_conv.c', func='h_conv1d_el', kernels=['C17_conv_el'], unwind=8, optional=True, timeout=900, mem_gb=12,
+      bounds='view::conv1d ELEMENT, constant shapes input (1,1,3) * weight (1,1,2), uint8 data + output index symbolic (294-393 s / 9.4 GB measured)',
+      quick=[], thorough=[{'ELEMENTS': 1}]),   # kissat: out of memory at 17 GB, cadical: no verdict in 600 s
+ dict(name='conv2d_el', src='harnesses/C17_conv.c', func='h_conv2d_el', kernels=['C17_conv_el'], unwind=8, optional=True, timeout=1800, mem_gb=16,
+      bounds='view::conv2d ELEMENT, constant shapes input (1,1,2,2) * weight (1,1,2,2)', quick=[], thorough=[{'ELEMENTS': 1}]),
+] + [dict(name='conv1d_el_' + n, src='harnesses/C17_conv.c', func='h_conv1d_el_' + n, kernels=['C17_conv_el'], unwind=8, optional=True, timeout=1200, mem_gb=14,
+          bounds='view::conv1d ELEMENT, constant shapes: ' + b, quick=[], thorough=[{'ELEMENTS': 1}])
+     for n, b in [('p1', 'padding 1, input (1,1,2) * weight (1,1,2)'), ('d2', 'dilation 2, input (1,1,3) * weight (1,1,2)'), ('bias', 'bias, input (1,1,3) * weight (1,1,2) + (1)'),
+                  ('g2', 'groups 2, input (1,2,2) * weight (2,1,2)')]] + [
+ dict(name='conv1d_el_s2', src='harnesses/C17_conv.c', func='h_conv1d_el_s2', kernels=['C17_conv_el'], unwind=8, optional=True, timeout=1200, mem_gb=14,
+      bounds='view::conv1d ELEMENT with stride 2, constant shapes input (1,1,4) * weight (1,1,2)', quick=[], thorough=[{'ELEMENTS': 1}]),
+ dict(name='conv1d_el_c2', src='harnesses/C17_conv.c', func='h_conv1d_el_c2', kernels=['C17_conv_el'], unwind=8, optional=True, timeout=1200, mem_gb=14,
+      bounds='view::conv1d ELEMENT with two input channels, constant shapes input (1,2,2) * weight (1,2,2)', quick=[], thorough=[{'ELEMENTS': 1}]),
+]
+ST = 'STRUCTURAL (shape only, no float arithmetic evaluated): hybrid float operands with symbolic extents 1..MAXE; '
+HARNESSES += [dict(name=n + '_shape', src='harnesses/C17_shapes.c', func='h_' + n + '_shape', kernels=['C17_shapes'], unwind=8, bounds=ST + b, quick=q, thorough=t, timeout=1200 if not q else 300)
+              for n, b, q, t in [('softmax', '2-d input, axis in [-2,1]', [{'MAXE': 3}], [{'MAXE': 4}]), ('softmin', '2-d input, axis in [-2,1]', [{'MAXE': 3}], [{'MAXE': 4}]), ('linear', 'x (n,in), w (out,in), b (out)', [{'MAXE': 3}], [{'MAXE': 4}]),
+                           ('bilinear', 'l (n,in1), r (n,in2), w (out,in1,in2), b (out)', [], [{'MAXE': 3}]), ('pairwise_distance', 'two (n,d) operands', [{'MAXE': 3}], [{'MAXE': 4}]), ('cosine_similarity', 'two (n,d) operands, axis 1', [{'MAXE': 3}], [{'MAXE': 4}]),
+                           ('batch_norm', '(N,C,H,W) input <= 36 cells, per-channel mean/var/weight/bias', [], [{'MAXE': 3}]), ('instance_norm', '(N,C,H,W) input, per-channel weight/bias', [], [{'MAXE': 2}]),
+                           ('group_norm', '(N,C,H,W) input, groups dividing C', [], [{'MAXE': 2}]), ('layer_norm', '(N,C,H,W) input, normalized shape (H,W)', [], [{'MAXE': 3}])]]
+_W = lambda *v: ['0x%x' % (x & (2**64 - 1)) for x in v]
+# TEMPORARY (to be moved into known_findings.json or fixed by the lead): solver counterexamples replayed natively
+PENDING_FINDINGS = [
+ dict(id='C17-conv-batch', harness='conv1d_shape_nopad', exclude_define='KF_C17_CONV_BATCH', witness_inputs=_W(2, 1, 2, 2, 1, 2, 0, 1),
+      also_harnesses=['conv2d_shape_nopad (witness 0x2 0x1 0x3 0x4 0x2 0x3 0x3 0x2 0x0 0x1 0x2 0x0 0x1)', 'conv1d_shape', 'conv2d_shape'],
+      what='view::conv1d(input (2,1,2), weight (2,1,1), stride 2) is Nothing (PyTorch: shape (2,2,1)); with padding the same call throws std::bad_array_new_length. index::conv_reshape_input '
+           '(convnd.hpp:12-46) sets every leading extent to 1, i.e. drops the batch extent, so the reshape of the input fails for any batch size > 1 (conv1d and conv2d). Region: N > 1.'),
+ dict(id='C17-conv2d-dilation-order', harness='conv2d_shape_nopad', exclude_define='KF_C17_CONV2D_DILATION_ORDER', witness_inputs=_W(1, 1, 4, 1, 1, 3, 1, 2, 0, 1, 2, 0, 2),
+      also_harnesses=['conv2d_shape'],
+      what='view::conv2d(input (1,1,4,1), weight (1,1,3,1), stride (2,2), dilation (1,2)) is Nothing (PyTorch: shape (1,1,1,1)): conv_window_axis is (-1,-2) while conv_expand_spacing keeps the '
+           'order of the dilation pair, so dilation[0] is applied to the width and dilation[1] to the height (kernel_size is reversed consistently, dilation is not). Region: dilation[0] != dilation[1].'),
+]
+OUTSIDE = [
+ 'conv1d/conv2d ELEMENTS: only the smallest constant shape of conv1d, input (1,1,3) * weight (1,1,2) with default stride/padding/dilation, uint8 data, is decided: "holds" in 294-393 s / 9.4 GB '
+ '(minisat; thorough query conv1d_el; kissat: out of memory at 17 GB, cadical: no verdict in 600 s); conv2d (1,1,3,3)*(1,1,2,2): no verdict in 1700 s / 16 GB in the study. '
+ 'Elements of conv with stride/padding/dilation/groups/bias, more channels or larger extents are not claimed',
+ 'conv groups > 1 and bias at the shape level; conv shapes WITH padding only in the thorough tier (convnd makes the pad widths a heap-backed list: 220 s / 6.5 GB per query)',
+ 'linear / bilinear ELEMENTS (tensordot + bias pipeline: no verdict in 600 s at n=1,in=2,out=2 in the study); their result shapes are checked structurally',
+ 'softmax/softmin, batch/layer/instance/group_norm, pairwise_distance, cosine_similarity ELEMENTS: "within floating-point tolerance" over exp/sqrt/division is not decidable here; only result shapes (structural)',
+ 'pooling: padding and dilation (not implemented in nmtools), kernel larger than the input (PyTorch rejects), N,C > 1 only in two thorough queries; H,W > 5 at the element level',
+ 'the regions listed in PENDING_FINDINGS',
+]
+ASSUMPTIONS = ['avg_pool2d: uint8 data, so every float32 partial sum is an integer < 2^24 and exact; the reference is the nested-loop float32 sum in row-major window order followed by one float32 division',
+               'PyTorch semantics are encoded in the harness from the documented formulas (pooling_output_shape incl. the ceil-mode rule, conv output size)']
+CLAIM = dict(
+ text='index::shape_pool2d / slice_pool2d equal PyTorch\'s output-size formula (incl. "the last ceil-mode window must start inside the input") and window slices for all N,C in 1..2, H,W in 1..7, kernel 1..3, '
+      'stride 1..3, both ceil modes (symbolic). view::max_pool2d and avg_pool2d return PyTorch\'s shape and the max / mean over the window truncated at the border for every enumerated (H,W,kernel,stride,ceil) '
+      'with all uint8 data and the output index symbolic. The output shape of view::conv1d / conv2d through the real convnd pipeline equals floor((n + 2p - d(k-1) - 1)/s) + 1 for symbolic extents, kernel, '
+      'stride, dilation (and padding in the thorough tier), batch 1 and equal dilation per axis (two findings outside); sliding_window, expand and pad index maps equal their definitions; '
+      'result shapes of softmax/softmin/linear/distances (and the norms in the thorough tier) are the input-derived shapes (structural).',
+ note='Pooling elements: quick = 12 tuples incl. overhanging ceil windows and the formerly failing (4,4),k=(2,1),s=(2,2),ceil case (now repaired in /repo: no exclusion needed); thorough = all H,W 1..5, k 1..3, s 1..3, ceil 0/1 (864 tuples). '
+      'Trusted: clang-14 -O1 lowering, engine/ll2c.py, CBMC; validated per run by gate and witness assertions.')
